@@ -236,6 +236,12 @@ pub fn gen_greedy(r: &mut Rng, feat: u32) -> (Universe, Prob) {
 /// packages. First-ranked candidates usually clash somewhere below, so the
 /// solver has to learn and backjump, yet most instances stay satisfiable.
 pub fn gen_conflict(r: &mut Rng, feat: u32) -> (Universe, Prob) {
+    gen_conflict_with(r, feat, false)
+}
+
+/// `empties`: version sets may match nothing (a requirement nobody can satisfy: its parent is asserted false
+/// by a clause without watches), packages may be missing altogether, and hints are more frequent.
+pub fn gen_conflict_with(r: &mut Rng, feat: u32, empties: bool) -> (Universe, Prob) {
     let n_names = r.range(4, 7) as u32;
     let mut u = Universe::default();
     for n in 0..n_names {
@@ -273,8 +279,11 @@ pub fn gen_conflict(r: &mut Rng, feat: u32) -> (Universe, Prob) {
         u.vss.push(Vs { name: n, matching: cands.clone() });
         for _ in 0..2 {
             let mut m: Vec<u32> = cands.iter().copied().filter(|_| r.chance(1, 2)).collect();
-            if m.is_empty() {
+            if m.is_empty() && !(empties && r.chance(1, 2)) {
                 m.push(cands[r.below(cands.len() as u64) as usize]);
+            }
+            if empties && r.chance(1, 5) {
+                m.clear();
             }
             u.vss.push(Vs { name: n, matching: m });
         }
@@ -424,6 +433,102 @@ pub fn gen_fanout(r: &mut Rng, feat: u32) -> (Universe, Prob) {
     (u, Prob { reqs, cons: vec![], soft: vec![] })
 }
 
+
+/// Soft requirements whose conflict is found only deep in their own run and whose learnt clause mentions
+/// only assignments of the hard solution made at low levels (an excluded / locked-out candidate): conflict
+/// analysis then wants to backjump BELOW the level at which the soft run started. Around that core:
+/// hard packages whose second-best versions carry Unknown dependencies, extra requirements or constraints,
+/// so that a redone hard part would need new clauses.
+pub fn gen_softdeep(r: &mut Rng, feat: u32) -> (Universe, Prob) {
+    let mut u = Universe::default();
+    let add_pkg = |u: &mut Universe, n_cands: u32| -> (u32, Vec<u32>) {
+        let name = u.pkgs.len() as u32;
+        let mut p = Pkg::default();
+        for i in 0..n_cands {
+            let id = u.sols.len() as u32;
+            u.sols.push(Sol { name, rank: i, deps: Some(Known { reqs: vec![], cons: vec![] }) });
+            p.cands.push(id);
+        }
+        let c = p.cands.clone();
+        u.pkgs.push(p);
+        (name, c)
+    };
+    let add_vs = |u: &mut Universe, name: u32, m: Vec<u32>| -> u32 {
+        u.vss.push(Vs { name, matching: m });
+        u.vss.len() as u32 - 1
+    };
+    // y: the package with a candidate that is false from level 1 on
+    let (y, yc) = add_pkg(&mut u, r.range(2, 4) as u32);
+    let dead = yc[0];
+    if feat & F_LOCKED != 0 && r.chance(1, 3) {
+        u.pkgs[y as usize].locked = Some(yc[1]);
+    } else {
+        u.pkgs[y as usize].excluded.push(dead);
+    }
+    let vs_y_any = add_vs(&mut u, y, yc.clone());
+    let vs_y_dead = add_vs(&mut u, y, vec![dead]);
+    let vs_y_low = add_vs(&mut u, y, vec![*yc.last().unwrap()]);
+    // a spare package that redone hard choices may need
+    let (w, wc) = add_pkg(&mut u, r.range(1, 2) as u32);
+    let vs_w = add_vs(&mut u, w, wc.clone());
+    // hard packages
+    let nh = r.range(2, 4) as u32;
+    let mut root = vec![Req::Single(vs_y_any)];
+    let mut hard_any = vec![];
+    for _ in 0..nh {
+        let (h, hc) = add_pkg(&mut u, r.range(2, 3) as u32);
+        let vs_any = add_vs(&mut u, h, hc.clone());
+        hard_any.push(vs_any);
+        root.push(Req::Single(vs_any));
+        // the preferred version may pin y low (so that y is propagated, not decided)
+        if r.chance(1, 2) {
+            u.sols[hc[0] as usize].deps = Some(Known { reqs: vec![], cons: vec![vs_y_low] });
+        }
+        // the second version needs something new when it is selected later
+        match r.below(4) {
+            0 if feat & F_UNKNOWN != 0 => u.sols[hc[1] as usize].deps = None,
+            1 => u.sols[hc[1] as usize].deps = Some(Known { reqs: vec![Req::Single(vs_w)], cons: vec![] }),
+            2 if feat & F_CONSTRAINS != 0 => u.sols[hc[1] as usize].deps = Some(Known { reqs: vec![], cons: vec![vs_y_low] }),
+            _ => {}
+        }
+        if feat & F_HINTS != 0 && r.chance(1, 4) {
+            u.pkgs[h as usize].hint = Hint::All;
+        }
+    }
+    r.shuffle(&mut root);
+    // soft chains: s -> d, d's preferred candidate needs the dead candidate of y (directly or one step deeper)
+    let mut soft = vec![];
+    for _ in 0..r.range(1, 3) {
+        let (_s, sc) = add_pkg(&mut u, 1);
+        let (d, dc) = add_pkg(&mut u, r.range(1, 3) as u32);
+        let vs_d = add_vs(&mut u, d, dc.clone());
+        u.sols[sc[0] as usize].deps = Some(Known { reqs: vec![Req::Single(vs_d)], cons: vec![] });
+        if r.chance(2, 3) {
+            u.sols[dc[0] as usize].deps = Some(Known { reqs: vec![Req::Single(vs_y_dead)], cons: vec![] });
+        } else {
+            let (e, ec) = add_pkg(&mut u, r.range(1, 2) as u32);
+            let vs_e = add_vs(&mut u, e, ec.clone());
+            u.sols[dc[0] as usize].deps = Some(Known { reqs: vec![Req::Single(vs_e)], cons: vec![] });
+            for &c in &ec {
+                u.sols[c as usize].deps = Some(Known { reqs: vec![Req::Single(vs_y_dead)], cons: vec![] });
+            }
+        }
+        // sometimes the soft solvable also wants a particular hard version
+        if r.chance(1, 3) && !hard_any.is_empty() {
+            let hv = hard_any[r.below(hard_any.len() as u64) as usize];
+            let name = u.vss[hv as usize].name;
+            let cands = u.pkgs[name as usize].cands.clone();
+            let pick = cands[r.below(cands.len() as u64) as usize];
+            let vs_pin = add_vs(&mut u, name, vec![pick]);
+            if let Some(k) = u.sols[sc[0] as usize].deps.as_mut() {
+                k.reqs.push(Req::Single(vs_pin));
+            }
+        }
+        soft.push(sc[0]);
+    }
+    (u, Prob { reqs: root, cons: vec![], soft })
+}
+
 pub fn gen_case(id: u64, seed: u64, class: &str, feat: u32) -> Case {
     let mut r = Rng::new(seed.wrapping_mul(0x100000001B3).wrapping_add(id));
     let (u, p) = match class {
@@ -431,7 +536,9 @@ pub fn gen_case(id: u64, seed: u64, class: &str, feat: u32) -> Case {
         "dense" => gen_universe(&mut r, feat, &DENSE),
         "greedy" => gen_greedy(&mut r, feat),
         "conflict" => gen_conflict(&mut r, feat),
+        "conflictx" => gen_conflict_with(&mut r, feat, true),
         "fanout" => gen_fanout(&mut r, feat),
+        "softdeep" => gen_softdeep(&mut r, feat),
         // for this class `feat` is the largest candidate count; sizes cycle 1..=feat
         "amo" => gen_amo(&mut r, 1 + (id % feat.max(1) as u64) as u32),
         other => panic!("unknown class {other}"),
